@@ -68,6 +68,15 @@ Complete == Flushed =>
     \A t \in Threads : /\ Len(FirstChunks(t)) = pushed[t]
                        /\ \A i \in 1..Len(wire) : wire[i][3] = wire[i][4] \/ i < Len(wire)
 
+\* O(1) forms of the same facts for long traces (every state is checked, so looking at the last chunk is enough)
+WholeLast ==
+    Len(wire) > 0 =>
+        LET i == Len(wire)
+            c == wire[i] IN
+        IF c[3] = 1 THEN i = 1 \/ wire[i - 1][3] = wire[i - 1][4]
+                    ELSE i > 1 /\ wire[i - 1] = <<c[1], c[2], c[3] - 1, c[4]>>
+FlushedClosed == (Flushed /\ Len(wire) > 0) => wire[Len(wire)][3] = wire[Len(wire)][4]
+
 EventuallyFlushed == <>[]Flushed      \* pushes are finite; the loop and the writer are fair
 
 Witness_Interleaved == ~(\E i \in 1..Len(wire) : i > 1 /\ wire[i][1] # wire[i - 1][1])
